@@ -444,6 +444,9 @@ fn scenario(
     if evil_class {
         out.count("scenarios_reentrant_collector", 1);
     }
+    if std::env::var("VERIF_C04_TRACE").is_ok() {
+        eprintln!("C04-TRACE scenario {sidx}: {desc:?}");
+    }
     let witness = |extra: Value| -> Value {
         json!({"scenario_index": sidx, "shard": args.shard, "callsites": css.iter().map(|c| format!("#{} {:?} {} {}", c.idx, c.kind, vcs::LEVEL_NAMES[c.level], vcs::TARGETS[c.target])).collect::<Vec<_>>(),
                "setup_and_scripts": desc, "chaos_intensity": intensity, "detail": extra,
@@ -682,10 +685,23 @@ fn scenario(
         if a.bad_deliveries.load(Ordering::SeqCst) != 0 {
             out.violation(
                 format!("during the race collector c{} was handed an emission its own filter rejects", a.cid),
-                witness(json!({"collector": a.spec().code()})),
+                witness(json!({"collector": a.spec().code(),
+                               "is_the_global_default": Some(a.cid) == pglobal.as_ref().map(|x| x.0.cid),
+                               "rejected_deliveries": a.log.lock().unwrap().iter().filter_map(|x| match x {
+                                   Got::Event { id, level, target } | Got::NewSpan { id, level, target, .. } if !a.spec().accepts(*level, *target) => Some(*id),
+                                   _ => None,
+                               }).map(|id| match recs.iter().find(|r| r.opid == id) {
+                                   Some(r) => format!("op{id}: emitted by a thread whose own scoped collector is {:?}, stamps [{}..{}], callsite cs{}", r.cid, r.call, r.ret, r.cs),
+                                   None => format!("op{id}: not an emission of this scenario's scripts"),
+                               }).collect::<Vec<_>>()})),
             );
             return Err(());
         }
+    }
+    // (the counter is cumulative and the global default lives on into the next scenario of this
+    // process: deliveries judged here - attributed to F30 above - must not be judged again)
+    for a in &allv {
+        a.bad_deliveries.store(0, Ordering::SeqCst);
     }
     for r in &recs {
         let c = css[r.cs];
